@@ -78,8 +78,20 @@ def main():
     def an(a):
         return "_p%d" % a if a % 3 == 2 else "a%d" % a      # every third attribute has a private name
 
+    ALT = 500000      # a write of ALT + d stores an object that compares equal to d but is not an int (True for 1, 0.0 for 0 ...)
+
+    def alt_obj(d):
+        return True if d == 1 else (-0.0 if d == 0 else float(d))
+
+    def snap_val(x):
+        if type(x) is int or type(x).__name__ == "CallableInt":
+            return x
+        if isinstance(x, (bool, float)) and x == int(x):
+            return ALT + int(x)
+        return x
+
     def snapshot():
-        return [[getattr(c, an(a)) for a in range(nattr)] for c in state["comps"]]
+        return [[snap_val(getattr(c, an(a))) for a in range(nattr)] for c in state["comps"]]
 
     timed = bool(case.get("timed"))
     spend = {int(k): v for k, v in case.get("spend", {}).items()}
@@ -99,7 +111,7 @@ def main():
         for (ci, a, v) in writes.get(k, []):
             # an ordinary attribute assignment of user code (written to the instance directly: components with an
             # interlock __setattr__ -- spec "hook" -- would refuse it otherwise)
-            state["comps"][ci].__dict__[an(a)] = v
+            state["comps"][ci].__dict__[an(a)] = alt_obj(v - ALT) if (isinstance(v, int) and ALT - 1000 < v < ALT + 1000) else v
         us = spend.get(k)
         if us:
             # the callback takes simulated time: the FPGA clock moves while the loop thread runs
@@ -120,6 +132,8 @@ def main():
     owners = case["fb_owners"]          # list: -1 = robot, else component index, grouped in collection order
 
     def fb_kind(j):
+        if j % 6 == 0 and j > 0:
+            return "opt_int"       # -> Optional[int]: the hint names no topic type, the value (an int) does
         if j % 5 == 4:
             return "list"          # -> list[int], the SAME list object every time, updated in place
         if j % 3 == 2:
@@ -161,6 +175,14 @@ def main():
                 buf = bufs.setdefault((id(self), j), [0, 7])       # one list per instance, always the same object
                 buf[0] = fbval.get(k, 0)
                 return buf
+        elif kind == "opt_int":
+            import typing
+
+            def getter(self) -> typing.Optional[int]:
+                k = begin_fb(self)
+                if k in raises:
+                    raise fault(k)
+                return fbval.get(k, 0)
         elif kind == "int_quoted":
             def getter(self) -> "int":
                 k = begin_fb(self)
@@ -250,7 +272,7 @@ def main():
                             ok = False
                             continue
                         for a in range(nattr):
-                            if not isinstance(getattr(cj, an(a), None), int):
+                            if not isinstance(getattr(cj, an(a), None), (int, float)):
                                 ok = False
                     cb(["Setup", ix(self, i) if ok else 1000 + ix(self, i)])
                 return setup
@@ -269,7 +291,7 @@ def main():
                 import functools
                 ns["on_disable"] = functools.partial((lambda i: lambda tag: cb(["OnDisable", i]))(i), "partial")
         for j, o in enumerate(owners):
-            if o == i and fb_fn[j] == j:
+            if o == i and fb_fn[j] == j:      # (a getter inherited from another component's class has fb_fn[j] != j)
                 # every other getter of an inheriting component is defined in its base class
                 (basens if (spec["inherit"] and j % 2 == 0) else ns)["get_f%03d" % j] = make_fb(j)
         if spec.get("sm"):
@@ -281,6 +303,10 @@ def main():
             _idle.__name__ = "idle"
             (basens if spec["inherit"] else ns)["idle"] = sm_state(first=True)(_idle)
             bases = (type("CompBase%d" % i, (StateMachine,) + root_bases, basens),) if spec["inherit"] else (StateMachine,) + root_bases
+        elif spec.get("derives_from") is not None:
+            # derived from an earlier component's class: its hooks and feedback getters are inherited, its own come on top
+            parent = comp_classes[spec["derives_from"]]
+            bases = (type("CompBase%d" % i, (parent,), basens),) if spec["inherit"] else (parent,)
         else:
             bases = (type("CompBase%d" % i, root_bases, basens),) if spec["inherit"] else root_bases
         comp_classes.append(type("Comp%d" % i, bases, ns))
@@ -300,6 +326,9 @@ def main():
                     x = int(x[1:]) if (isinstance(x, str) and x[:1] == "s" and x[1:].lstrip("-").isdigit()) else -999998
                 elif kind == "list":
                     x = x[0] if (val.isIntegerArray() and len(x) == 2 and x[1] == 7) else -999996
+                elif kind == "opt_int":
+                    # Optional[int] names no topic type: the value decides (ntcore stores a python int given without a type as a number)
+                    x = int(x) if ((val.isInteger() or val.isDouble()) and not isinstance(x, bool) and float(x).is_integer()) else -999995
                 else:
                     # the topic type follows the return hint (also when it is written as a string): an integer topic
                     x = x if (val.isInteger() and not isinstance(x, bool)) else -999997
